@@ -19,6 +19,18 @@ claimed = {
    text="Deductive proof that the real Evaluate of sphere, circle, (rounded) box 2D/3D, line, (rounded) cylinder and capsule equals the independent closed-form Euclidean signed distance at every point, and that union/intersection/difference (plain and with the polynomial blend), cut, offset, shell, elongate, plain extrusion, full revolution and uniform scale preserve the two-point 1-Lipschitz property of abstract operands. EXACT => LIP for primitives, the cone, polygons, rotate-copy/union, arrays, rounded extrusion and partial revolution are not yet under contract (not_decided).",
    design_ref="8.3",
    technique="contract-based deductive verification: per-path VCs against independent spec functions; two-point Lipschitz contracts with quantified operand assumptions instantiated at evaluation points; lemma library (Lagrange identity, sup-norm Lipschitz of the polynomial blend) proved in the same run"),
+ "C05": dict(
+   text="Proof obligations over the real tables and the real cell code: (a) edge-table bits are exactly the sign changes and triangle rows name exactly the crossing edges, (b) interior directed edges cancel within every one of the 256 configurations, (c) for all 3 x 4096 face-adjacent configuration pairs the net face segments of one cell are the reverses of the neighbour's, (d) face segments have the solid corner on the same side as the single-corner anchor whose normal points to the void; mcToTriangles is shown by symbolic execution (corner coordinates and values symbolic, all 256 sign patterns x all degeneracy outcomes) to return exactly the table's triangles with the table's winding minus the ones its degeneracy test rejects; mcInterpolate lies on the lattice edge, is the linear zero crossing, and is symmetric in its end points (so neighbouring cells compute the identical vertex); Degenerate(0) holds iff two vertices coincide. The gluing argument from these lemmas to 'closed oriented surface' is prose (A8(ii)); caller corner/value pairing and padding are not yet under contract.",
+   design_ref="8.5",
+   technique="contract-based deductive verification: exhaustive ground lemmas over tables read from the working tree's init + symbolic execution of the cell code against the table specification + SMT-discharged contracts on interpolation"),
+ "C08": dict(
+   text="Same structure as C05 in 2D: msEdgeTable bits are the sign changes; in every one of the 16 configurations each crossing edge is an end point of exactly one segment and non-crossing edges of none (degree 2 after gluing, two disjoint segments for saddles); msToLines is shown by symbolic execution to emit exactly the table's segments minus those whose end points coincide; msInterpolate is on the edge, the linear zero crossing, symmetric. Caller pairing, circle bound and perimeter convergence are not_decided.",
+   design_ref="8.8",
+   technique="contract-based deductive verification: exhaustive ground lemmas over tables + symbolic execution of msToLines + SMT-discharged interpolation contracts"),
+ "C14": dict(
+   text="Safety contracts on parseFloats, loadSTLAscii, loadSTLBinary and LoadSTL: every index, slice bound, nil dereference, make size and panic instruction of the real code is an obligation proved for arbitrary results of the external file / scanner / parser calls (all file contents), callers see callees by contract, and loadSTLBinary is proved to be called only when the file size equals 84 + 50*count (allocation proportional to the file). Loop termination is not checked (not_decided).",
+   design_ref="8.14",
+   technique="contract-based deductive verification in safety mode: one obligation per index/slice/make/panic instruction from go/ssa, loops cut at invariants, external calls havocked, SMT (LIA)"),
  "C10": dict(
    text="Frame contract 'assigns nothing' proved for every Evaluate/BoundingBox method of every type implementing SDF2/SDF3 (found mechanically from go/types), transitively through all module callees and function-valued fields, with a lock-discipline alternative (writes and all accesses to the written fields only under the receiver's mutex). Race freedom then follows from the Go memory model (reads of memory nobody writes do not race); interleavings themselves are not explored.",
    design_ref="8.10",
